@@ -187,3 +187,31 @@ Proof.
   all: assert (Q7 : 0 <= k2 * (c * c)) by (clear - Hk2 Hcc; nra).
   all: clear - P1 P2 P3 Q1 Q2 Q3 Q4 Q5 Q6 Q7 Hp; split; nra.
 Qed.
+
+(* ---------------- the Adj identities for EVERY algebra element (all regimes): rotation / scale parts exact, the
+   translation parts differ by the defect of the single-matrix identity at psi = R phi *)
+Theorem adj_identity_SE3_all (eps : R) (X : se3R) (a : vec3R * vec3R) : unitq (snd X) ->
+  let psi := SO3_AdjXa (snd X) (snd a) in let t := fst X in
+  snd (SE3_mul X (se3_exp eps a)) = snd (SE3_mul (se3_exp eps (SE3_AdjXa X a)) X) /\
+  fst (SE3_mul (se3_exp eps (SE3_AdjXa X a)) X) =
+    vadd (fst (SE3_mul X (se3_exp eps a)))
+         (vsub (SO3_act (so3_exp eps psi) t) (vadd t (mvmul (so3_Jl eps psi) (vcross psi t)))).
+Proof.
+  intros Hu psi t. split; [|apply (adj_SE3_translation eps X a Hu)].
+  unfold SE3_mul, se3_exp, SE3_AdjXa. cbn [fst snd]. apply adj_identity_SO3. assumption.
+Qed.
+Theorem adj_identity_Sim3_all (eps : R) (X : sim3R) (tau phi : vec3R) (sg : R) : unitq (fst (snd X)) ->
+  let psi := SO3_AdjXa (fst (snd X)) phi in let t := fst X in
+  snd (Sim3_mul X (sim3_exp eps (tau, (phi, sg)))) =
+    snd (Sim3_mul (sim3_exp eps (sim3_arg (Sim3_AdjXa X (tau, phi, sg)))) X) /\
+  fst (Sim3_mul (sim3_exp eps (sim3_arg (Sim3_AdjXa X (tau, phi, sg)))) X) =
+    vadd (fst (Sim3_mul X (sim3_exp eps (tau, (phi, sg)))))
+         (vsub (vscale (exp sg) (SO3_act (so3_exp eps psi) t))
+               (vadd t (mvmul (rxso3_Ws eps (psi, sg)) (vadd (vcross psi t) (vscale sg t))))).
+Proof.
+  intros Hu psi t. split; [|apply (adj_Sim3_translation eps X tau phi sg Hu)].
+  rewrite Sim3_AdjXa_expand. unfold Sim3_mul, sim3_exp, sim3_arg. cbn [fst snd].
+  apply (adj_identity_RxSO3 eps (snd X) (phi, sg)). assumption.
+Qed.
+Lemma SO3_Jr_def (eps : R) (X : list R) : SO3_Jr eps X = so3_Jr eps (log_l eps 0 X).
+Proof. reflexivity. Qed.
